@@ -19,10 +19,9 @@ from . import progs
 
 THEOREMS = [
     "deps_topological", "deps_nodup", "deps_mem_iff", "deps_runtime_first", "deps_main_last",
-    "machine_eq_direct", "init_once_after_imports", "init_suspension_invisible", "no_overtaking",
     "var_order", "spec_var_order_respects",
     "file_order", "file_order_any_sort", "import_order",
-    "linkname_parse", "linkname_split", "linkname_split_dotted_last_counterexample",
+    "read_link_iff", "linkname_parse", "linkname_split", "linkname_split_dotted_last_counterexample",
     "ismethod_value", "ismethod_pointer", "ismethod_func",
     "linkname_exported_counterexample", "linkname_resolves_partial",
 ]
@@ -43,8 +42,8 @@ NODE_SRC = {
 NODE_ALT = {   # alternative renderings with the same lookupTopNode result
     "func0": ["func (r recvT) %s(x int) int\n"],
     "func1": ["func (r *recvT) %s(x int) int { return x }\n", "func %s() {}\n"],
-    "type": ["type (\n\tother0 int\n\t%s struct{ a int }\n)\n"],
-    "value": ["const %s = 1\n", "var (\n\tother1, %s int\n)\n", "var %s = 5\n"],
+    "type": ["type (\n\tfillerA int\n\t%s struct{ a int }\n)\n"],
+    "value": ["const %s = 1\n", "var (\n\tfillerB, %s int\n)\n", "var %s = 5\n"],
     "missing": ["func f() { var %s int; _ = %s }\n"],
 }
 
@@ -77,7 +76,7 @@ def gen_directive(rng, local):
     if r < 0.90:
         return rng.choice(["// go:linkname ", "//go:linknamex ", "//go:Linkname ", "//go:linkname", "// //go:linkname "]) + local + " " + ext
     if r < 0.94:
-        return "/*go:linkname " + local + " " + ext + "*/"
+        return "/*go:linkname " + local + " " + rng.choice(["pkg.name", "a/b.name", "name"]) + "*/"
     return "//go:linkname " + local + " " + ext                         # no-break space is a Fields separator
 
 
@@ -213,26 +212,26 @@ def gen_program(rng, mod, size=None):
                     terms.append(fn + "()")
                 else:
                     terms.append(d)
+            zdeps = []
             for z in zeros:
                 if rng.random() < 0.3:
                     terms.append(z)
+                    zdeps.append(z)
             ext = []
             for q in p.imports:
                 if rng.random() < 0.6:
                     terms.append(rng.choice(["%s.X", "%s.F()"]) % q.name)
                     ext.append(q)
             tracer = rng.choice(["tr", "tr", "trb", "trg"])
-            vdecls[v] = (deps, "var %s = %s(\"V:%s.%s\", %s)\n" % (v, tracer, p.path, v, " + ".join(terms)), ext, tracer)
+            vdecls[v] = (deps, zdeps, "var %s = %s(\"V:%s.%s\", %s)\n" % (v, tracer, p.path, v, " + ".join(terms)), ext, tracer)
         decl_order = list(hidden)
         rng.shuffle(decl_order)
         for v in decl_order:
             f = rng.choice(p.files)
-            deps, src, ext, tracer = vdecls[v]
-            f["decls"].append("v:%s:%s" % (v, "+".join(deps) if deps else "-"))
+            deps, zd, src, ext, tracer = vdecls[v]
+            f["decls"].append("v:%s:%s" % (v, "+".join(deps + zd) if deps + zd else "-"))
             f["src"].append(src)
             f["imports"].update(q.idx for q in ext)
-            if tracer == "trg":
-                f["imports"].add("runtime")
         for z in zeros:
             f = rng.choice(p.files)
             f["decls"].append("z:%s" % z)
@@ -250,8 +249,6 @@ def gen_program(rng, mod, size=None):
                 f["src"].append("func init() {\n%s\t%s(\"I:%s/%s#%d\", %s)\n}\n" % (
                     stm, tracer, p.path, f["name"], ninit, " + ".join([str(ident)] + hidden[:2])))
                 ident += 1
-                if tracer == "trg":
-                    f["imports"].add("runtime")
         # exported surface
         f = rng.choice(p.files)
         if p is not mainp:
@@ -264,6 +261,8 @@ def gen_program(rng, mod, size=None):
     lid = 0
     for _ in range(nlinks):
         a, b = rng.sample(pkgs, 2)
+        if b is mainp:           # gc names the main package's symbols `main.…`, GopherJS by its directory path: not comparable
+            a, b = b, a
         kind = rng.choice(["func", "value", "pointer", "nvalue"])
         lid += 1
         ident = 100 + lid
@@ -311,8 +310,6 @@ def gen_program(rng, mod, size=None):
     mf["decls"].append("m")
     mf["src"].append("func main() {\n\t%s(\"M\", %s)\n}\n" % (rng.choice(["tr", "trb", "trg"]), " + ".join(
         ["0"] + ["%s.F()" % q.name for q in mainp.imports] + mainp.vars[:2])))
-    if "trg(\"M\"" in mf["src"][-1]:
-        mf["imports"].add("runtime")
     mf["imports"].update(q.idx for q in mainp.imports)
     # render
     files = {}
@@ -718,7 +715,7 @@ def run(tier, seed):
         build_error_tie(chk, scratch)
         finding_exported(chk, scratch)
         # (a)+(c) programs
-        nprog = 400 if tier == "thorough" else 36
+        nprog = 150 if tier == "thorough" else 16
         total = program_tie(chk, tier, scratch, nprog)
         if chk.tie_breaks or [m for m in chk.mismatches if not chk.known_match(m.get("signature"))]:
             # a tie broke: search harder for an input on which the property itself fails
